@@ -7,6 +7,7 @@ import (
 	"fmt"
 	"net/url"
 	"os"
+	"sort"
 	"strings"
 	"sync"
 
@@ -587,7 +588,22 @@ func checkTypedRoot(in typedRootInput) string {
 	if err := json.Unmarshal([]byte(typedRootDoc), root); err != nil {
 		return ""
 	}
+	// (what the document holds, read without encoding it: the spelling of the extension names of Leaf's properties)
+	extKeys := func() string {
+		var ks []string
+		for pn, p := range root.Definitions["Leaf"].Properties {
+			for k := range p.Extensions {
+				ks = append(ks, pn+"."+k)
+			}
+		}
+		sort.Strings(ks)
+		return strings.Join(ks, " ")
+	}
+	keysBefore := extKeys()
 	before, _ := json.Marshal(root)
+	if k := extKeys(); k != keysBefore {
+		return fmt.Sprintf("encoding the typed root modifies it: the extension names of its properties were %q and are now %q", keysBefore, k)
+	}
 	expand := func(ref string) (string, error) {
 		sch := &spec.Schema{}
 		sch.Ref = spec.MustCreateRef(ref)
@@ -654,6 +670,9 @@ func checkTypedRoot(in typedRootInput) string {
 	close(msgs)
 	for m := range msgs {
 		return m
+	}
+	if k := extKeys(); k != keysBefore {
+		return fmt.Sprintf("the shared typed root has been modified by reading it: the extension names of its properties were %q and are now %q", keysBefore, k)
 	}
 	if after, _ := json.Marshal(root); string(after) != string(before) {
 		return "the shared typed root has been modified by expansions made against it"
